@@ -306,8 +306,8 @@ class Key(AbstractKey):
         :type name: :any:`NonStrictName`
         """
         name = Name.to_bytes(name)
-        self.pib.conn.execute('UPDATE certificates SET is_default=1 WHERE certificate_name=?', (name,))
-        self.pib.conn.commit()
+        with self.pib.conn:
+            self.pib.conn.execute('UPDATE certificates SET is_default=1 WHERE certificate_name=?', (name,))
 
     def default_cert(self) -> Certificate:
         """
@@ -414,8 +414,8 @@ class Identity(AbstractIdentity):
         :type name: :any:`NonStrictName`
         """
         name = Name.to_bytes(name)
-        self.pib.conn.execute('UPDATE keys SET is_default=1 WHERE key_name=?', (name,))
-        self.pib.conn.commit()
+        with self.pib.conn:
+            self.pib.conn.execute('UPDATE keys SET is_default=1 WHERE key_name=?', (name,))
 
     def default_key(self) -> Key:
         """
@@ -522,8 +522,8 @@ class KeychainSqlite3(Keychain):
         :type name: :any:`NonStrictName`
         """
         name = Name.to_bytes(name)
-        self.conn.execute('UPDATE identities SET is_default=1 WHERE identity=?', (name,))
-        self.conn.commit()
+        with self.conn:
+            self.conn.execute('UPDATE identities SET is_default=1 WHERE identity=?', (name,))
 
     def default_identity(self) -> Identity:
         """
@@ -550,8 +550,8 @@ class KeychainSqlite3(Keychain):
         """
         name = Name.to_bytes(name)
         if name not in self:
-            self.conn.execute('INSERT INTO identities (identity) VALUES (?)', (name,))
-            self.conn.commit()
+            with self.conn:
+                self.conn.execute('INSERT INTO identities (identity) VALUES (?)', (name,))
         else:
             raise KeyError(f'Identity {Name.to_str(name)} already exists')
         if not self.has_default_identity():
@@ -569,8 +569,8 @@ class KeychainSqlite3(Keychain):
         """
         name = Name.to_bytes(id_name)
         if name not in self:
-            self.conn.execute('INSERT INTO identities (identity) VALUES (?)', (name,))
-            self.conn.commit()
+            with self.conn:
+                self.conn.execute('INSERT INTO identities (identity) VALUES (?)', (name,))
             self.new_key(name)
         if not self.has_default_identity():
             self.set_default_identity(name)
@@ -597,8 +597,8 @@ class KeychainSqlite3(Keychain):
         name = Name.to_bytes(name)
         for key_name in self[name]:
             self.del_key(key_name)
-        self.conn.execute('DELETE FROM identities WHERE identity=?', (name,))
-        self.conn.commit()
+        with self.conn:
+            self.conn.execute('DELETE FROM identities WHERE identity=?', (name,))
         self._signer_cache = {}
 
     def get_signer(self, sign_args: dict[str, Any]):
@@ -654,9 +654,9 @@ class KeychainSqlite3(Keychain):
         name = Name.to_bytes(name)
         id_name = formal_name[:-2]
         key = self[id_name][formal_name]
-        self.conn.execute('DELETE FROM certificates WHERE key_id=?', (key.row_id,))
-        self.conn.execute('DELETE FROM keys WHERE key_name=?', (name,))
-        self.conn.commit()
+        with self.conn:
+            self.conn.execute('DELETE FROM certificates WHERE key_id=?', (key.row_id,))
+            self.conn.execute('DELETE FROM keys WHERE key_name=?', (name,))
         self.tpm.delete_key(formal_name)
         self._signer_cache = {}
 
@@ -668,8 +668,8 @@ class KeychainSqlite3(Keychain):
         :type name: :any:`NonStrictName`
         """
         name = Name.to_bytes(name)
-        self.conn.execute('DELETE FROM certificates WHERE certificate_name=?', (name,))
-        self.conn.commit()
+        with self.conn:
+            self.conn.execute('DELETE FROM certificates WHERE certificate_name=?', (name,))
         self._signer_cache = {}
 
     def new_key(self, id_name: NonStrictName, key_type: str = 'ec', **kwargs) -> Key:
@@ -703,12 +703,12 @@ class KeychainSqlite3(Keychain):
         cert_name, cert_data = self_sign(key_name, pub_key, signer)
         key_name = Name.to_bytes(key_name)
         cert_name = Name.to_bytes(cert_name)
-        self.conn.execute('INSERT INTO keys (identity_id, key_name, key_bits) VALUES (?, ?, ?)',
-                          (identity.row_id, key_name, pub_key))
-        self.conn.execute('INSERT INTO certificates (key_id, certificate_name, certificate_data)'
-                          'VALUES ((SELECT id FROM keys WHERE key_name=?), ?, ?)',
-                          (key_name, cert_name, bytes(cert_data)))
-        self.conn.commit()
+        with self.conn:
+            self.conn.execute('INSERT INTO keys (identity_id, key_name, key_bits) VALUES (?, ?, ?)',
+                              (identity.row_id, key_name, pub_key))
+            self.conn.execute('INSERT INTO certificates (key_id, certificate_name, certificate_data)'
+                              'VALUES ((SELECT id FROM keys WHERE key_name=?), ?, ?)',
+                              (key_name, cert_name, bytes(cert_data)))
 
         if not identity.has_default_key():
             identity.set_default_key(key_name)
@@ -717,7 +717,7 @@ class KeychainSqlite3(Keychain):
     def import_cert(self, key_name: NonStrictName, cert_name: NonStrictName, cert_data: BinaryStr):
         key_name = Name.to_bytes(key_name)
         cert_name = Name.to_bytes(cert_name)
-        self.conn.execute('INSERT INTO certificates (key_id, certificate_name, certificate_data)'
-                          'VALUES ((SELECT id FROM keys WHERE key_name=?), ?, ?)',
-                          (key_name, cert_name, bytes(cert_data)))
-        self.conn.commit()
+        with self.conn:
+            self.conn.execute('INSERT INTO certificates (key_id, certificate_name, certificate_data)'
+                              'VALUES ((SELECT id FROM keys WHERE key_name=?), ?, ?)',
+                              (key_name, cert_name, bytes(cert_data)))
